@@ -47,7 +47,7 @@ def _expand(e, uni, cache):
     """expand quantifiers over the finite universe `uni` (list of ints)"""
     key = e.get_id()
     if key in cache:
-        return cache[key]
+        return cache[key][1]
     if z3.is_quantifier(e):
         n = e.num_vars()
         body = e.body()
@@ -74,7 +74,7 @@ def _expand(e, uni, cache):
         r = e.decl()(*ch) if not (z3.is_and(e) or z3.is_or(e)) else (z3.And(*ch) if z3.is_and(e) else z3.Or(*ch))
     else:
         r = e
-    cache[key] = r
+    cache[key] = (e, r)  # keep `e` alive: z3 reuses ids of collected ASTs
     return r
 
 
